@@ -20,6 +20,7 @@ import hashlib
 import importlib
 import inspect
 import json
+import logging
 import random
 import time
 
@@ -59,6 +60,8 @@ STATUSES = ["NOT_FOUND", "PERMISSION_DENIED", "RESOURCE_EXHAUSTED", "ABORTED"]
 OPT_SETS = [(), ("typing.root",), ("pydantic_dataclasses",)]
 KW_VALUES = [{"st": 11.0, "ct": 22.0, "sd": 33.0, "cd": 44.0}, {"st": 44.0, "ct": 33.0, "sd": 22.0, "cd": 11.0}]
 CALL_TIMEOUT = 20.0      # harness guard against a hung call (seconds)
+# the in-process grpclib server logs every handler exception with a traceback; the oracle reports them itself
+logging.getLogger("grpclib.server").setLevel(logging.CRITICAL)
 
 EXT_PROTO = """syntax = "proto3";
 package other.sub;
@@ -641,7 +644,7 @@ def oracle(chk, n_schemas, budget_s, stop_on_fail=False, obs=None):
     plans = []
     for i in range(n_schemas):
         schema = gen_schema(rng, deck, min_methods=4 if i < len(OPT_SETS) else 1, pkg_deck=pkg_deck)
-        opts = () if tier == "quick" else OPT_SETS[i % len(OPT_SETS)]
+        opts = () if (tier == "quick" and i < 12) else OPT_SETS[i % len(OPT_SETS)]
         plans.append((schema, render(schema), opts))
     unimpl_seen = set()
     before = len(chk.oracle_failures)
@@ -845,13 +848,40 @@ def run(chk, drv):
     chk.extra["partial"] = PARTIAL
     obs = {"map_routes": {}, "stub_routes": {}, "helpers": {}, "cards": {}}
     quick = chk.tier == "quick"
-    oracle(chk, 6 if quick else 40, 35 if quick else 480, obs=obs)
+    oracle(chk, 24 if quick else 90, 60 if quick else 480, obs=obs)
     resolve_oracle(chk)
+    shadow_probe(chk)
     if drv is not None:
         correspond(chk, drv, obs)
 
 
+SHADOWED = ("timeout", "deadline", "metadata", "channel")     # attributes set by ServiceStub.__init__
+
+
+def shadow_input(name):
+    schema = {"package": "pkg", "services": [{"name": "Svc", "methods": [[name, False, False, "local", "local2"]]}]}
+    return {"protos": render(schema), "opts": [], "package": "pkg", "service": "Svc", "service_index": 0, "schema": schema,
+            "method": name, "mode": "normal", "req_len": 1, "resp_len": 1, "iter_kind": "single", "seed_values": 7,
+            "status": None, "unimpl": None, "kw": None}
+
+
+def shadow_probe(chk):
+    """D28: an RPC whose python name equals an instance attribute of ServiceStub cannot be called through the stub"""
+    for name in ("Timeout", "Deadline", "Metadata", "Channel"):
+        inp = shadow_input(name)
+        chk.case("shadow " + name, True, {"method": name})
+        chk.count("shadow_probe")
+        for kind, detail in replay_input(inp):
+            chk.fail(kind, inp, detail)
+
+
 def classify(failure, known):
+    inp = failure.get("input")
+    if isinstance(inp, dict) and failure.get("kind") == "call-raised" and pykey(str(inp.get("method"))) in SHADOWED \
+            and "object is not callable" in str(failure.get("detail")):
+        for e in known:
+            if e.get("class") == "call-raised:method-name-shadowed-by-stub-attribute":
+                return e["id"]
     return None
 
 
